@@ -20,6 +20,13 @@ Inputs  : tasks presented as named callables, bare callable instances and functo
           and - in every run - placed before and after every operation of the worker that completes a returning / raising
           task (poolcommon.observe_sweep), the point between the future's flag and the return of Event.set() included
           (`fut.published`, a scheduling point of the shim for the futures' events).
+          Argument lists of every shape (poolcommon.gen_argspec / argument_sweep): 0-4 positional arguments (objects,
+          tuples, dicts, lists, None, 0, strings, callables) and keyword arguments whose NAMES are options somewhere in the
+          pool / threading / queue API (callback, timeout, name, args, kwargs, block, daemon, target, result, extra, ...):
+          the task body checks that it received exactly the objects enqueue() was given (`wrong-arguments`), and a callable
+          handed to a task may be called by nobody else (`argument-hijacked`).  A keyword named `self` / `method` cannot be
+          passed through enqueue(self, method, *args, **kwargs): Python raises TypeError at the call, the task is not
+          accepted (counted: args/keyword-refused-by-python).  Extracted fact poolTaskArgsForwarded ties the source.
 """
 import poolcommon as pc
 
@@ -29,11 +36,11 @@ REQUIRED_THEOREMS = [
     "C09_none_after_stop", "C09_fifo_single", "C09_single_worker",
     "C09_queued_has_server", "C09_eventually_once", "C09_eventually_begins",
     "C09_gen_poolUnlockedAccesses", "C09_gen_poolPendingStores", "C09_gen_poolGrowthRule", "C09_gen_poolRetireRule",
-    "C09_gen_poolRunHandlerSafe", "C09_gen_poolStartRollback", "C09_gen_poolFuturePublishesLast",
+    "C09_gen_poolRunHandlerSafe", "C09_gen_poolStartRollback", "C09_gen_poolFuturePublishesLast", "C09_gen_poolQueuePuts", "C09_gen_poolTaskArgsForwarded",
 ]
 
 MIX = [(3, "L1", None), (2, "L2", None), (2, "G", None), (1, "W", None), (1, "GR", None), (1, "L1", (1, 1)), (1, "L2", (1, 0)),
-       (2, "S", None), (1, "F", None), (1, "N", None)]
+       (2, "S", None), (1, "F", None), (1, "N", None), (1, "B", None), (1, "C", None)]
 
 
 def run(ctx):
